@@ -156,7 +156,8 @@ fval = st.one_of(st.sampled_from(SPECIAL),
 length = st.one_of(st.sampled_from([0, 0, 1, 1, 2, 2, 3]), st.integers(0, 8),
                    st.sampled_from([17, 64, 300, 2000]))
 small = st.one_of(st.sampled_from([0, 0, 1, 1, 2, 2, 3]), st.integers(0, 8))
-CELLS = [-2, -1, 0, 1, 2**62, -2**62]
+CELLS = [-2, -1, 0, 1, 2**62, -2**62, 2**63 - 1, -2**63, 2**31 - 1, 2**31,
+         -2**31]
 
 
 @st.composite
@@ -263,6 +264,14 @@ def agg_case(draw):
     if draw(st.integers(0, 4)) > 0:
         idx = sorted(idx)
     m = n if draw(st.integers(0, 5)) else max(0, n - 1)
+    # labels at the ends of the 32-bit range (the last label is the largest
+    # int, the first the smallest) and beyond it
+    level = draw(st.sampled_from(["none", "none", "none", "top", "top",
+                                  "bottom", "beyond"]))
+    if idx and level != "none":
+        off = {"top": 2**31 - 1 - max(idx), "bottom": -2**31 - min(idx),
+               "beyond": 2**31 - max(idx)}[level]
+        idx = [i + off for i in idx]
     return {"idx": idx, "x": draw(farr(m)),
             "op": draw(st.integers(-1, 4)),
             "maxnan": draw(st.sampled_from([0, 0, -1, 1, 3, 2**31 - 1]))}
@@ -337,8 +346,10 @@ def var2h_case(draw):
     return {"start": draw(st.sampled_from([0, 600, 3599, 3600, 1799])),
             "year": draw(st.sampled_from([1900, 1970, 2000, 2250])),
             "steps": steps, "vals": draw(farr(n)),
-            "P": draw(st.sampled_from([3600, 3600, 1800, 900, 0])),
-            "maxgap": draw(st.sampled_from([3600, 432000, 2**31 - 1, 0])),
+            "P": draw(st.sampled_from([3600, 3600, 1800, 900, 0, 1, -3600,
+                                       2**31 - 1])),
+            "maxgap": draw(st.sampled_from([3600, 432000, 2**31 - 1, 0, -1,
+                                            -2**31])),
             "rain": draw(st.sampled_from([False, True, 2])),
             "display": draw(st.sampled_from([False, True, True, 2, -1])),
             "extreme": True}
@@ -360,11 +371,17 @@ def _(c):
 def date_case(draw):
     ii = st.one_of(st.integers(-3, 14), st.integers(-10**6, 10**6),
                    st.sampled_from([0, 1, 12, 13, 28, 29, 30, 31, 32, 1900,
-                                    2000, 2100, -1]))
+                                    2000, 2100, -1]),
+                   # the ends of the 32-bit range
+                   st.sampled_from([2**31 - 1, -2**31, 2**31 - 2,
+                                    -2**31 + 1, 2**31 - 1]))
+    last_day = st.sampled_from([[2**31 - 1, 12, 31], [2**31 - 1, 12, 15],
+                                [2**31 - 1, 11, 30], [-2**31, 12, 31],
+                                [2**31 - 2, 12, 31], [2**31 - 1, 2, 28]])
     return {"a": draw(ii), "b": draw(ii), "c": draw(ii),
             "d1": draw(st.one_of(
                 st.lists(ii, min_size=3, max_size=3),
-                st.lists(ii, min_size=0, max_size=5))),
+                st.lists(ii, min_size=0, max_size=5), last_day)),
             "d2": draw(st.one_of(
                 st.lists(ii, min_size=3, max_size=3),
                 st.lists(ii, min_size=0, max_size=5))),
